@@ -29,6 +29,11 @@ def run_scheduled(mode, schedule, workdir, idx, delay=""):
         env["STUB_OUT"] = grep_file
         child = f"{core.DELTA} --no-gitconfig --paging never --line-numbers git grep -n foo"   # (--line-numbers makes Config::from ask for the calling process: the earliest query there is)
         stdin = b""
+    elif mode == "wrapother":
+        # a launched command that delta does not classify (git status): nothing is published, the guess must still arrive
+        env["STUB_OUT"] = os.path.join(workdir, "grep.txt")
+        child = f"{core.DELTA} --no-gitconfig --paging never --line-numbers git status"
+        stdin = b""
     else:
         diff_file = os.path.join(workdir, "in.diff")
         child = f"{core.DELTA} --no-gitconfig --paging never < {diff_file}"
@@ -97,21 +102,38 @@ def run(tier):
         slow = [s for s in scheds if "q_enter" in s and "b_compute" in s and s.index("q_enter") < s.index("b_compute")]
         jobs += [(mode, s, "b_compute:400") for s in (slow if tier == "thorough" else rnd.sample(slow, min(len(slow), 12)))]
         jobs += [(mode, s, "q_enter:150") for s in rnd.sample(scheds, min(len(scheds), 6 if tier == "quick" else 40))]
+        # the window between entering the publication and taking the mutex: the main thread dawdles there, so that the
+        # background thread's critical section falls into it (the ordering points alone leave this to chance)
+        window = [s for s in scheds if "m_enter" in s and "b_compute" in s and "m_released" in s
+                  and s.index("m_enter") < s.index("b_compute") < s.index("m_released")]
+        jobs += [(mode, s, "m_enter:300") for s in window]
         jobs.append((mode, [], ""))           # unconstrained run: the reference output
+        if mode == "stdin":
+            jobs += [("wrapother", s, "") for s in scheds[:: 2 if tier == "quick" else 1]] + [("wrapother", [], "")]
     log(f"[{PID}] design level: {sum(m.distinct for m in mcs.values())} states, all interleavings safe and live; "
         f"{len(jobs)} schedules to force on the binary")
     res = core.pmap(lambda ij: run_scheduled(ij[1][0], ij[1][1], workdir, ij[0], ij[1][2]), list(enumerate(jobs)), jobs=8)
     # a run in which a hook waited out its bound, or which did not finish, is repeated once on its own: only what
     # happens again (on a machine that is not busy with the other runs) is evidence
+    def foreign_guess(r):
+        # the background thread searches the process table; on a busy machine it can come across a `git grep` that is not
+        # this delta's caller (another run's child): then its guess carries the same name as the known command and the
+        # values in the trace no longer tell guess and known command apart
+        return any(e["label"] == "b_compute" and e["value"] not in ("GitLog", "", "TIMEOUT") for e in r["events"])
+
     def suspicious(r):
-        return r["timed_out"] or r["code"] != 0 or any(e["value"] == "TIMEOUT" for e in r["events"])
+        return r["timed_out"] or r["code"] != 0 or any(e["value"] == "TIMEOUT" for e in r["events"]) or foreign_guess(r)
     for i, r in enumerate(res):
         if suspicious(r):
             res[i] = run_scheduled(jobs[i][0], jobs[i][1], workdir, 10000 + i, jobs[i][2])
-    ref = {m: next(r for (mm, s, d), r in zip(jobs, res) if mm == m and not s) for m in ("wrap", "stdin")}
+    ref = {m: next(r for (mm, s, d), r in zip(jobs, res) if mm == m and not s) for m in ("wrap", "stdin", "wrapother")}
     events = []
+    uninformative = 0
     for i, ((mode, sched, delay), r) in enumerate(zip(jobs, res)):
-        events.append({"run": i, "label": "reset", "value": mode})
+        if foreign_guess(r):
+            uninformative += 1      # (also when repeated alone: left out of the trace validation, never a verdict)
+            continue
+        events.append({"run": i, "label": "reset", "value": "stdin" if mode == "wrapother" else mode})
         for e in r["events"]:
             if e["label"] in ("b_released", "m_released") and e["value"] != "TIMEOUT":
                 continue          # waiting points after the mutex was released: not model actions
@@ -133,6 +155,8 @@ def run(tier):
             # (the process may exit while the background thread is still on its way: its last points need not be reached)
             if ptr != len(sched) and not all(x.startswith("b_") for x in sched[ptr:]):
                 V.drift.append(f"schedule not followed to the end: {sched} (reached {ptr})")
+    if uninformative > len(jobs) // 4:
+        raise core.ToolError(f"in {uninformative} of {len(jobs)} runs the background thread guessed a foreign `git grep`: the machine is too busy")
     failed, tr = tlc.validate_trace("Trace_Caller", events)
     log(f"[{PID}] {len(jobs)} runs, {len(events)} hook events validated against Caller by TLC: {len(failed)} runs rejected")
     for f in failed:
